@@ -16,6 +16,7 @@ Decided (structural necessary conditions; the bijection on concrete documents is
 from __future__ import annotations
 
 import ast
+import re
 
 from ..cfg import CFG, branch_conditions
 from ..pathstate import Explorer, conjuncts
@@ -556,6 +557,52 @@ def _appends_per_path(cfg: CFG, start: int, stop: set[int], recv: str, pre: froz
     return results
 
 
+def _comprehension_mapper(run: Run, w, fi: FuncInfo, qual: str, param: str, types: list[str]) -> bool:
+    """the mapper written as `return [<one record> for rec in <param> if <filters>]`: one correction per record that passes
+    the filters; the filters are decided per record type"""
+    comps = [n for n in walk_no_nested(fi.node) if isinstance(n, ast.ListComp) and len(n.generators) == 1 and is_name_(n.generators[0].iter, param) and isinstance(n.generators[0].target, ast.Name)]
+    rets = [n for n in walk_no_nested(fi.node) if isinstance(n, ast.Return)]
+    if len(comps) != 1 or len(rets) != 1 or rets[0].value is not comps[0]:
+        return False
+    comp = comps[0]
+    rec = comp.generators[0].target.id  # type: ignore[union-attr]
+    type_exprs = {f"{rec}.get('type')", f"{rec}.get('type', '')", f"{rec}['type']"}
+
+    def passes(typ: str) -> tuple[bool, list[str]]:
+        foreign = []
+        ok = True
+        for f in comp.generators[0].ifs:
+            facts = conjuncts(f, True)
+            if not facts:
+                foreign.append(_text(f))
+                continue
+            for fact in facts:
+                m = re.fullmatch(r"(.+) (==|!=) ('[^']*')", fact)
+                if not m or m.group(1) not in type_exprs:
+                    foreign.append(fact)
+                    continue
+                holds = (ast.literal_eval(m.group(3)) == typ) == (m.group(2) == "==")
+                ok = ok and holds
+        return ok, foreign
+
+    for typ in types:
+        ok, foreign = passes(typ)
+        run.instance("R07.3", f"{w.relpath}:{qual}", f"type {typ!r}: comprehension yields {1 if ok else 0} correction(s) per record, conditions other than type: {foreign[:2]}", ok=ok and not foreign)
+        if foreign:
+            run.violation("R07.3", w, qual, f"record type {typ} filtered by {foreign[0][:60]}", f"whether a {typ!r} record becomes a correction depends on `{foreign[0][:80]}`, not only on its type: some rewrites lose their receipt in octave_write.corrections")
+        elif not ok:
+            run.violation("R07.3", w, qual, f"record type {typ} -> 0 corrections", f"a record of type {typ!r} is filtered out of the mapper's comprehension: receipts are dropped on the way to octave_write.corrections")
+    ok, foreign = passes("spec_violation")
+    run.instance("R07.3", f"{w.relpath}:{qual}", f"type 'spec_violation': comprehension yields {1 if ok else 0} correction(s)", ok=not ok)
+    if ok:
+        run.violation("R07.3", w, qual, "record type spec_violation -> correction", "a lexer record of type 'spec_violation' (wrong_case, boundary_missing: findings, not rewrites) is turned into a correction: canonical input such as N::True yields a normalization receipt although nothing was rewritten")
+    return True
+
+
+def is_name_(n: ast.AST, name: str) -> bool:
+    return isinstance(n, ast.Name) and n.id == name
+
+
 def check_mappers(run: Run) -> None:
     run.rule("R07.3", "mappers are total and exact: for a record of type 'normalization' (and, in the lenient mapper, of type 'lenient_parse' with any subtype) every path through the mapper loop appends exactly one correction and the only conditions on the way test the record's type/subtype; each tool passes the complete receipt list of the reader it called into repairs/corrections, in strict and lenient mode", 6)
     p = run.project
@@ -564,6 +611,8 @@ def check_mappers(run: Run) -> None:
     for qual, param, types in (("WriteTool._map_parse_warnings_to_corrections", "warnings", ["normalization", "lenient_parse"]), ("WriteTool._track_corrections", "tokenize_repairs", ["normalization"])):
         fi = w.func(qual)
         loop = _loop_over(fi, param)
+        if loop is None and _comprehension_mapper(run, w, fi, qual, param, types):
+            continue
         if loop is None or not isinstance(loop.target, ast.Name):
             raise AnalysisError(f"{qual}: no `for <record> in {param}` loop")
         rec = loop.target.id
